@@ -20,8 +20,11 @@ KINDS = ["connect", "connack", "publish", "puback", "pubrec", "pubrel", "pubcomp
 
 
 def gc_fields(F):
+    """Fields of the connection struct.  A field that only holds a private helper struct whose members are presented as
+    virtual fields (facts.flatten_gc_structs) is not listed itself: its members are."""
     a = F.adt(GC_ADT)
-    return {f["name"]: f for f in a["variants"][0]["fields"]}
+    containers = {inf["name"] for inf in getattr(F, "flat_struct", {}).values()}
+    return {f["name"]: f for f in a["variants"][0]["fields"] if f["name"] not in containers}
 
 
 def gc_methods(F):
